@@ -5,7 +5,7 @@
    placement is the hash the library computes (C15_hash_is_amiga_hash).  That every image produced by a history
    decodes, and decodes to the model's tree and bytes, is judged per explored history (checks/c03.py). *)
 From Coq Require Import ZArith List Bool String.
-From ADF Require Import CPrelude Generated.Layout Generated.Leaf Spec.Names Spec.Decode Proofs.LayoutP Proofs.NamesP.
+From ADF Require Import CPrelude Generated.Layout Generated.Leaf Spec.Names Spec.Decode Proofs.LayoutP Proofs.NamesP Proofs.ChecksumP.
 Import ListNotations.
 Local Open Scope string_scope.
 Local Open Scope Z_scope.
@@ -79,6 +79,24 @@ Theorem C03_hash_placement : forall (name : list Z) (intl : Z) (fuel : nat),
   c_adfGetHashValue fuel name intl = Some (hash_name (negb (intl =? 0)) (trunc30 name)).
 Proof. exact hash_gen. Qed.
 
+(* the checksum the library computes for a block, stored at the checksum offset, is accepted by the decoder's checksum test,
+   and it is the only value that is - for every 512-byte block and every long-aligned offset (20: header-type, data, cache
+   blocks; 0: bitmap blocks; 8: RDB blocks) *)
+Theorem C03_checksum_accepted : forall (b : list Z) (off : Z) (fuel : nat) (s : Z),
+  List.length b = 512%nat -> 0 <= off < 512 -> off mod 4 = 0 -> (128 < fuel)%nat ->
+  c_adfNormalSum fuel b off 512 = Some s ->
+  0 <= s < 2 ^ 32 /\ sum_ok (put_be32 b off s) = true.
+Proof. exact normalsum_accepted. Qed.
+Theorem C03_checksum_unique : forall (b : list Z) (off : Z) (fuel : nat) (s v : Z),
+  List.length b = 512%nat -> 0 <= off < 512 -> off mod 4 = 0 -> (128 < fuel)%nat ->
+  c_adfNormalSum fuel b off 512 = Some s -> 0 <= v < 2 ^ 32 ->
+  sum_ok (put_be32 b off v) = true -> v = s.
+Proof. exact normalsum_unique. Qed.
+(* non-vacuity: a concrete block *)
+Example C03_checksum_example :
+  c_adfNormalSum 200 (repeat 0 500 ++ [1; 2; 3; 4; 255; 255; 255; 255; 0; 0; 0; 9]) 20 512 = Some 4278058228 /\
+  sum_ok (put_be32 (repeat 0 500 ++ [1; 2; 3; 4; 255; 255; 255; 255; 0; 0; 0; 9]) 20 4278058228) = true.
+Proof. vm_compute. split; reflexivity. Qed.
 Print Assumptions C03_layout_root.
 Print Assumptions C03_layout_entry.
 Print Assumptions C03_layout_filehdr.
@@ -89,3 +107,5 @@ Print Assumptions C03_block_sizes.
 Print Assumptions C03_swap_table.
 Print Assumptions C03_constants.
 Print Assumptions C03_hash_placement.
+Print Assumptions C03_checksum_accepted.
+Print Assumptions C03_checksum_unique.
